@@ -89,7 +89,11 @@ def with_views(run, fn, db, label=None):
     _call_rule(run, fn, db)
     if not isinstance(db, DB) or getattr(db, "inline_mode", None) or os.environ.get("VERIF_NO_INLINE"):
         return
-    if all(o["ok"] for o in run.obs[start:]):
+    # a recorded known finding is expected to fail, on the base program and on every view of it
+    if getattr(run, "_known_keys", None) is None:
+        run._known_keys = set((k["rule"], k["key"]) for k in load_known().get("findings", []) if k.get("status") == "known" and k.get("property") == run.prop)
+    fine = lambda obs: all(o["ok"] or (o["rule"], o["key"]) in run._known_keys for o in obs)
+    if fine(run.obs[start:]):
         return
     base = run.obs[start:]
     for view in VIEWS:
@@ -98,7 +102,7 @@ def with_views(run, fn, db, label=None):
             continue
         del run.obs[start:]
         _call_rule(run, fn, vdb)
-        if all(o["ok"] for o in run.obs[start:]):
+        if fine(run.obs[start:]):
             for o in run.obs[start:]:
                 o.setdefault("view", "helpers-inlined:" + view)
             run.note("%s%s [%s]: decided on the view with private helpers inlined (%s)" % (run.rule, (" / " + label) if label else "", db.tag, view))
